@@ -28,7 +28,9 @@ class DictValue(GenericValue):
             child_node = None
             if self._ast_node is not None:
                 assert isinstance(self._ast_node, ast.Dict)
-                if index in old_value:
+                if index in old_value and not any(
+                    key is None for key in self._ast_node.keys
+                ):
                     pos = list(old_value.keys()).index(index)
                     child_node = self._ast_node.values[pos]
 
@@ -67,6 +69,9 @@ class DictValue(GenericValue):
             values = [None] * len(self._old_value)
         else:
             assert isinstance(self._ast_node, ast.Dict)
+            if any(key is None for key in self._ast_node.keys):
+                # dict unpacking is not supported inside snapshots
+                return
             values = self._ast_node.values
 
         for key, node in zip(self._old_value.keys(), values):
